@@ -110,6 +110,7 @@ type FnExec struct {
 	refKeys  map[string]bool // field keys whose Int sort denotes a reference
 	allowed  map[string][]Term // per-write frame: refs that may be written, per heap key (from modifies)
 	allowedWhole map[string]bool
+	anchorHits map[string]int
 	transitions map[int]*epochTransition
 	linked   map[string]bool
 	marks    map[string]*State
@@ -1204,4 +1205,12 @@ func (fx *FnExec) copyFromLocal(st *State, dst Term, ls *LocalStruct, depth int)
 			fx.writeLV(st, &LV{Key: hk, Ref: dst, Sort: s}, fx.readLV(st, fx.localLV(k, f.Type())))
 		}
 	}
+}
+
+
+func (fx *FnExec) anchorHit(a string) {
+	if fx.anchorHits == nil {
+		fx.anchorHits = map[string]int{}
+	}
+	fx.anchorHits[a]++
 }
